@@ -323,6 +323,33 @@ fn fam_lenient(_t: Tier) -> BoxedStrategy<Case> {
         .boxed()
 }
 
+/// characters (and references to characters) that XML does not allow, at every kind of position: the transform may refuse
+/// the input, but whatever it outputs must be well-formed
+const NON_CHARS: &[&str] = &[
+    "\u{FFFE}", "\u{FFFF}", "\u{1}", "\u{B}", "\u{1F}", "\u{0}", "&#xFFFE;", "&#xFFFF;", "&#65535;", "&#1;", "&#x0;", "&#xD800;", "&#x110000;", "\u{FFFD}", "\u{7F}", "\u{85}", "&#x9;", "&#xFFFD;", "\u{E000}", "\u{10FFFF}", "&#x10FFFF;",
+];
+
+fn fam_nonchars(_t: Tier) -> BoxedStrategy<Case> {
+    (0..NON_CHARS.len(), 0u8..9, any::<bool>(), gen::cfg_benign())
+        .prop_map(|(i, pos, ns, cfg)| {
+            let c = NON_CHARS[i];
+            let body = match pos {
+                0 => format!("<rect wh=\"5\" fill=\"a{c}b\" text=\"hi\"/>"),
+                1 => format!("<rect wh=\"5\" text=\"note{c}\"/>"),
+                2 => format!("<text xy=\"0\">x{c}y</text>"),
+                3 => format!("<rect wh=\"5\"/><!-- c{c}c --><rect wh=\"2\"/>"),
+                4 => format!("<style><![CDATA[ .a{c} {{ fill: red }} ]]></style><rect wh=\"5\"/>"),
+                5 => format!("<rect wh=\"5\" class=\"k{c}\" id=\"i1\"/>"),
+                6 => format!("<g data-k=\"{c}\"><title>t{c}</title><rect wh=\"5\"/></g>"),
+                7 => format!("<rect wh=\"5\" _=\"cm{c}\"/>"),
+                _ => format!("<var v=\"{c}\"/><rect wh=\"5\" text=\"$v\"/>"),
+            };
+            let input = if ns { format!("<svg xmlns=\"{SVG_NS}\">{body}</svg>") } else { format!("<svg>{body}</svg>") };
+            Case { input, cfg, rooted: Some(true), namespaced: ns, fam: "non-chars".into() }
+        })
+        .boxed()
+}
+
 fn fam_docgen(_t: Tier) -> BoxedStrategy<Case> {
     (gen::docgen(DocOpts::all(), 10, gen::hostile(4).boxed()), gen::cfg_hostile(), crate::props::union::root_attrs(), any::<bool>())
         .prop_map(|(input, cfg, ra, with_ra)| {
@@ -376,6 +403,7 @@ impl Property for C02 {
             Family::random("hostile", tier.n(16_000, 120_000), fam_hostile),
             Family::random("passthrough", tier.n(6_000, 30_000), fam_passthrough),
             Family::random("lenient", tier.n(1_600, 3000), fam_lenient),
+            Family::random("non-chars", tier.n(1_500, 8000), fam_nonchars),
             Family::random("docgen", tier.n(8_000, 50_000), fam_docgen),
             Family::fixed("corpus", corpus),
         ]
